@@ -324,7 +324,10 @@ def r4_separators(ctx):
     sep = {'TOKEN_SEPARATOR': ctx.ce.module_const(N.TOKENS, 'TOKEN_SEPARATOR'),
            'DECORATION_SEPARATOR': ctx.ce.module_const(N.TOKENS, 'DECORATION_SEPARATOR')}
     pf = ctx.prog.func(f'{N.TOKENIZERS}.KernTokenizer.tokenize')
-    rets = symex.returns(pf)
+    if pf.cls is not None and pf.cls.name != 'KernTokenizer' and pf.cls.qualname not in ctx.prog.normalizer.known:
+        pf, rets = F.class_returns(ctx, ctx.prog.cls(f'{N.TOKENIZERS}.KernTokenizer'), 'tokenize')
+    else:
+        rets = symex.returns(pf)
     for cond, val, sp in rets:
         core, removed = c04._replace_chain(ctx, pf, val)
         deleted = {a for a, b in (removed or []) if b == ''}
